@@ -28,6 +28,9 @@ pub struct Scn {
     pub storm: Option<Storm>,
     pub events: Vec<Event>,
     pub cfg: SysCfg,
+    /// host fault: every write to the emulator's console fails (ENOSPC) while the guest runs
+    #[serde(default)]
+    pub console_full: bool,
 }
 
 pub struct C15;
@@ -286,7 +289,7 @@ impl Property for C15 {
             if rng.chance(1, 6) {
                 events.push(Event { trig: Trigger::Iter(rng.below(6)), act: Action::Lines((0..rng.range(1, 4)).map(|_| gen_fuzz_line(rng)).collect()) });
             }
-            return Scn { guest: None, storm: Some(Storm { base, words, er }), events, cfg: SysCfg { wait_start: false, clock, clock_seed, step_cap: 4000, print_msgs: rng.chance(1, 16), print_opcode: rng.chance(1, 16) } };
+            return Scn { guest: None, storm: Some(Storm { base, words, er }), events, cfg: SysCfg { wait_start: false, clock, clock_seed, step_cap: 4000, print_msgs: rng.chance(1, 16), print_opcode: rng.chance(1, 16) }, console_full: rng.chance(1, 12) };
         }
         // ---- structured: a healthy guest, corrupted while it runs
         let guest = gen_guest(rng);
@@ -324,7 +327,7 @@ impl Property for C15 {
                 events.push(Event { trig: Trigger::AtPc { pc: w.trapa_pc, nth: 0 }, act: Action::SetReg { r: rng.below(2) as u8, val: if rng.chance(1, 2) { adv_value(rng) } else { *rng.pick(&[0u32, 104, 105, 113, 0x8000_0000]) } } });
             }
         }
-        Scn { guest: Some(guest), storm: None, events, cfg: SysCfg { wait_start: rng.chance(1, 10), clock, clock_seed, step_cap: est * 4 + 3000, print_msgs: rng.chance(1, 8), print_opcode: est < 3000 && rng.chance(1, 8) } }
+        Scn { guest: Some(guest), storm: None, events, cfg: SysCfg { wait_start: rng.chance(1, 10), clock, clock_seed, step_cap: est * 4 + 3000, print_msgs: rng.chance(1, 8), print_opcode: est < 3000 && rng.chance(1, 8) }, console_full: rng.chance(1, 8) }
     }
 
     fn execute(scn: &Scn, stats: &mut Stats) -> Verdict {
@@ -383,6 +386,10 @@ impl Property for C15 {
             }
         }
         let st = storm.clone();
+        if scn.console_full {
+            crate::harness::console_fault(true);
+            bump(stats, "fault.console_writes_fail");
+        }
         let (run, obs) = run_sys(&g, &scn.cfg, &scn.events, FaultObs { fired: vec![], sig: Fnv::new(), in_handler: 0 }, false, move |sim| {
             if let Some(s) = &st {
                 let keep2 = sim.cpu.er[2];
@@ -390,6 +397,9 @@ impl Property for C15 {
                 sim.cpu.er[2] = keep2;
             }
         });
+        if scn.console_full {
+            crate::harness::console_fault(false);
+        }
         let _ = crate::harness::take_console();
         for n in &obs.fired {
             bump(stats, &format!("fault.{}", n));
@@ -491,11 +501,17 @@ impl Property for C15 {
         if scn.cfg.clock != ClockModel::Fast {
             out.push(Scn { cfg: SysCfg { clock: ClockModel::Fast, ..scn.cfg.clone() }, ..scn.clone() });
         }
+        if scn.console_full {
+            out.push(Scn { console_full: false, ..scn.clone() });
+        }
+        if scn.cfg.print_msgs || scn.cfg.print_opcode {
+            out.push(Scn { cfg: SysCfg { print_msgs: false, print_opcode: false, ..scn.cfg.clone() }, ..scn.clone() });
+        }
         out
     }
 
     fn size(scn: &Scn) -> usize {
-        scn.events.len() + scn.storm.as_ref().map(|s| s.words.len()).unwrap_or(0) + scn.guest.as_ref().map(|g| g.blocks.len()).unwrap_or(0)
+        scn.console_full as usize + scn.cfg.print_msgs as usize + scn.cfg.print_opcode as usize + scn.events.len() + scn.storm.as_ref().map(|s| s.words.len()).unwrap_or(0) + scn.guest.as_ref().map(|g| g.blocks.len()).unwrap_or(0)
     }
 }
 
